@@ -175,6 +175,57 @@ def run_carry(ctx, pt):
     ctx.eq('C06/%s/enc' % c, ctx.attempt(lambda: o2.enc(nv(nonce), M[:70])), ('ok', RS.stream(blockf(c), key, nonce, rounds, M[:70])))
 
 
+def pts_longmsg(tier):
+    pts = [(c, 65537, 2) for c in ('salsa20', 'chacha')] + [('salsa20', 16385 * 4, 8)]
+    if tier == 'thorough':
+        pts += [(c, (1 << 21) + 100, 2) for c in ('salsa20', 'chacha')] + [('chacha', (1 << 20) + 1, 2), ('salsa20', 1 << 20, 2)]
+    return pts
+
+
+def run_longmsg(ctx, pt):
+    """one enc call on more than 1024 blocks (thorough: more than 2 MiB = 32768 blocks): the block counter runs on"""
+    c, n, rounds = pt
+    key, nonce = expander(32, 51), expander(8, 52)
+    M = (expander(4096, 53) * (n // 4096 + 1))[:n]
+    exp = RS.stream(blockf(c), key, nonce, rounds, M)
+    r = ctx.attempt(lambda: mk(c, key, rounds).enc(nv(nonce), M))
+    ctx.eq('C06/%s/enc/long-message' % c, (r[0], len(r[1]) if r[0] == 'ok' else r[1]), ('ok', n))
+    if r[0] == 'ok' and r[1] != exp:
+        first = next(i for i in range(n) if r[1][i] != exp[i])
+        ctx.fail('C06/%s/enc/long-message' % c, 'reference keystream', 'first wrong byte at offset %d (block %d)' % (first, first // 64))
+    ctx.cmps += 1
+    if n <= 70000:
+        ctx.eq('C06/%s/dec-of-enc/long-message' % c, ctx.attempt(lambda: mk(c, key, rounds).dec(nv(nonce), exp)), ('ok', M))
+
+
+def equal_word_kats():
+    import json, os
+    p = os.path.join(os.path.dirname(os.path.dirname(os.path.dirname(os.path.abspath(__file__)))), 'kats', 'stream_equal_words.json')
+    return json.load(open(p))
+
+
+def pts_eqwords(tier):
+    return list(range(len(equal_word_kats())))
+
+
+def run_eqwords(ctx, pt):
+    """nonces (found once, by search) for which keystream block 0 has two equal 32-bit words - a coincidence of probability
+    2^-25 per block that no nonce family reaches; the entry is re-verified with the reference before it is used"""
+    e = equal_word_kats()[pt]
+    c, key, rounds, nonce = e['cipher'], bytes.fromhex(e['key']), e['rounds'], struct.pack('<Q', e['nonce'])
+    blk = blockf(c)(key, nonce, 0, rounds)
+    w = struct.unpack('<16I', blk)
+    a, b = e['equal_words']
+    if w[a] != w[b]:
+        raise InternalError('stream_equal_words.json entry %d does not have equal words under the reference' % pt)
+    M = expander(150, 54)
+    ctx.eq('C06/%s/enc/keystream-block-with-two-equal-words' % c, ctx.attempt(lambda: mk(c, key, rounds).enc(nv(nonce), M)), ('ok', RS.stream(blockf(c), key, nonce, rounds, M)))
+    ctx.eq('C06/%s/enc/keystream-block-with-two-equal-words' % c, ctx.attempt(lambda: mk(c, key, rounds).enc(nv(nonce), b'')), ('ok', b''))
+    g = mk(c, key, rounds).keystream(nv(nonce))
+    from crysp.bits import pack
+    ctx.eq('C06/%s/keystream/block-with-two-equal-words' % c, ctx.attempt(lambda: b''.join(pack(x) for x in next(g))), ('ok', blk))
+
+
 # ---- RC4 -----------------------------------------------------------------------------------
 
 def pts_rc4keys(tier):
@@ -370,6 +421,10 @@ def subchecks():
         Sub('salsa-core', pts_hash, run_hash, engine='P', exhaustive=False, bound='Salsa20().hash on the 512-bit single-bit family + patterns (quick: every 6th)'),
         Sub('quarter-rounds', pts_qr, run_qr, engine='D',
             bound='Salsa20 and ChaCha quarterround on every 4-tuple over the 10-word boundary alphabet {0,1,2,2^31-1,2^31,2^32-2,2^32-1,0000ffff,ffff0000,01234567} (10^4 each); one double round + feed-forward on 4 states of boundary words per point'),
+        Sub('long-messages', pts_longmsg, run_longmsg, engine='P', exhaustive=False, chunk=1,
+            bound='one enc call on 65537 bytes (Salsa20/2, ChaCha/2) and 65540 bytes (Salsa20/8); thorough: 2 MiB + 100 bytes for both, 1 MiB and 1 MiB + 1'),
+        Sub('equal-keystream-words', pts_eqwords, run_eqwords, engine='P',
+            bound='kats/stream_equal_words.json: 2 nonces per (cipher, key size, rounds) in {Salsa20, ChaCha} x {256/20, 256/8, 128/20, 256/12} whose keystream block 0 has two equal words (found by tools/find_equal_words.py, re-verified per run): 150-byte message, empty message, raw keystream block'),
         Sub('counter-carry', pts_carry, run_carry, engine='H',
             bound='via the guarded hook: keystream started at block 2^32-2, 2^32-1, 2^32, 2^33-1, 2^48+5, 2^64-2; 4 (2) blocks vs reference with the 64-bit counter split over two words'),
         Sub('rc4-keys', pts_rc4keys, run_rc4keys, engine='P', bound='every key length 1..256 (ramp) + 3 patterns at {1,5,16,255,256}: key-schedule state, 40 bytes, dec(enc), empty message'),
